@@ -630,6 +630,8 @@ class Gen:
         if k == "partial":
             self.n_partials += 1
             tag = "render" if (isolated or r.random() < 0.5) else "include"
+            if isolated and r.random() < 0.08:
+                tag = "include"  # refused inside a rendered partial / macro: DisabledTagError
             name = f"{self.p.partial_prefix}part{len(self.partials)}{self.p.partial_suffix}"
             mode = r.choice([None, None, "with", "for"])
             alias = None
